@@ -42,12 +42,12 @@ Own == CASE place = "same" -> <<1, 1, 1>>
          [] place = "other_scope" -> <<2, 2, 2>>
          [] OTHER -> <<NOCTX, 0, 0>>
 
-Init == /\ place \in Places /\ n \in 1..MaxItems /\ ending \in {"normal", "error"} /\ nested \in BOOLEAN
+Init == /\ place \in Places /\ n \in 0..MaxItems /\ ending \in {"normal", "error"} /\ nested \in BOOLEAN
         /\ (nested => n >= 2) /\ slow \in 0..n
         \* the source: an async generator function (calling it runs nothing), a plain function that does work when
         \* called and returns the generator ("factory": it reports what it saw when called), or one that raises when called
         /\ kind \in {"agen", "factory", "raising"}
-        /\ (kind = "raising" => n = 1 /\ ~nested /\ slow = 0 /\ ending = "normal")
+        /\ (kind = "raising" => n = 0 /\ ~nested /\ slow = 0 /\ ending = "normal")
         /\ pos = 0 /\ sst = "fresh" /\ s1done = FALSE /\ called = FALSE /\ nops = 0
         /\ obs = [res |-> <<"none", 0, 0, 0, 0>>, cons |-> Own, s1 |-> FALSE, call |-> <<0, 0, 0>>]
 
@@ -102,10 +102,13 @@ CancelPull ==
   /\ called' = called
   /\ obs' = [res |-> None5("cancelled"), cons |-> Own, s1 |-> s1done', call |-> CallView(called)]
 
+(* aclose(): ends a stream that was not exhausted; closing a stream that already ended - exhausted, failed, cancelled,
+   closed before - is allowed (contextlib.aclosing always does it) and changes nothing *)
 Close ==
-  /\ Bound /\ sst \in {"fresh", "open"} /\ sst' = "closed"
+  /\ Bound /\ sst # "pulling"
+  /\ sst' = IF sst \in {"fresh", "open"} THEN "closed" ELSE sst
   /\ nops' = nops + 1 /\ UNCHANGED <<scen, pos>>
-  /\ s1done' = Completes
+  /\ s1done' = IF sst \in {"fresh", "open"} THEN Completes ELSE s1done
   /\ called' = called
   /\ obs' = [res |-> <<"closed", 0, 0, 0, 0>>, cons |-> Own, s1 |-> s1done', call |-> CallView(called)]
 
